@@ -321,7 +321,7 @@ theorem pop_view (h : PathMut) (pre v post : Text) (inv : PInv h pre v post) :
 
 def symPushView (anch fa atStart : Bool) (v s : Text) : Text × Bool :=
   if s == [cDot] then (v, true)
-  else if s == [cDot, cDot] then (popView anch fa atStart v, true)
+  else if s == [cDot, cDot] then (popView anch fa atStart (if v == [cDot] then clearView v else v), true)
   else if !s.isEmpty || !Path.is_empty v then (pushView anch fa atStart v s, false)
   else (v, false)
 
@@ -338,8 +338,16 @@ theorem symbolic_push_view (h : PathMut) (pre v post : Text) (inv : PInv h pre v
     simp only [h1', Bool.false_eq_true, if_false]
     by_cases h2 : (s == [cDot, cDot]) = true
     · simp only [h2, if_true]
-      obtain ⟨h', e', i', f', a'⟩ := pop_view h pre v post inv
-      exact ⟨h', by simp [e'], i', f', a'⟩
+      by_cases hv : (v == [cDot]) = true
+      · simp only [hv, if_true]
+        obtain ⟨h0, e0, i0, f0, a0⟩ := clear_view h pre v post inv
+        obtain ⟨h', e', i', f', a'⟩ := pop_view h0 pre _ post i0
+        rw [f0, a0] at i'
+        exact ⟨h', by simp [e0, e'], i', f'.trans f0, a'.trans a0⟩
+      · have hv' : (v == [cDot]) = false := by simpa using hv
+        simp only [hv', Bool.false_eq_true, if_false]
+        obtain ⟨h', e', i', f', a'⟩ := pop_view h pre v post inv
+        exact ⟨h', by simp [e'], i', f', a'⟩
     · have h2' : (s == [cDot, cDot]) = false := by simpa using h2
       simp only [h2', Bool.false_eq_true, if_false]
       by_cases h3 : (!s.isEmpty || !Path.is_empty v) = true
